@@ -273,7 +273,53 @@ class C09(Prop):
         return None
 
     # -- real threads against the real DummyDev: threading.enumerate() before connect / after disconnect ----------------
+    def slow_read_sessions(self):
+        """an interface whose idle read blocks for 9 s (the ICommInterface contract allows it): after disconnect() has
+        returned no library thread may be running, and an immediate reconnect must not give two receive threads"""
+        import vsim
+        import refdev
+        import sessionlib as sl
+        out = []
+        for high in (True, False):
+            res = {}
+
+            def scenario(sim, high=high, res=res):
+                from nxslib.comm import CommHandler
+                from nxslib.nxscope import NxscopeHandler
+                from nxslib.proto.parse import Parser
+                dev = refdev.RefDevice(sl.mk_chans([False, True], [0, 0]), flags=3, rxpadding=0)
+                link = refdev.make_link(sim, dev, poll=9.0)
+                h = NxscopeHandler(link, Parser()) if high else CommHandler(link, Parser())
+                lib = lambda: sorted(t.name for t in sim.live_tasks() if t.name in ("recv", "stream"))  # noqa: E731
+                h.connect()
+                if high:
+                    h.stream_start()
+                h.disconnect()
+                res["after_disconnect"] = lib()
+                res["dev"] = h.dev is not None
+                h.connect()
+                res["after_reconnect"] = lib()
+                h.disconnect()
+                vsim.vsleep(20.0)
+                res["end"] = lib()
+
+            r, sim = vsim.run_sim(scenario, time_limit=400.0, real_limit=30.0)
+            name = f"slow-read:{'nx' if high else 'comm'}"
+            if isinstance(r, BaseException):
+                out.append({"key": "does-not-terminate", "case": name, "what": f"session over a link whose idle read blocks 9 s: {type(r).__name__}: {r}",
+                            "expected": "every call returns", "observed": type(r).__name__})
+            elif res.get("after_disconnect") or res.get("end") or res.get("dev") or res.get("after_reconnect", []).count("recv") > 1:
+                out.append({"key": "thread-left", "case": name,
+                            "what": "link whose idle read blocks 9 s: connect; [stream_start]; disconnect; connect; disconnect",
+                            "expected": "no library thread and no description after disconnect() has returned; one receive thread after the reconnect",
+                            "observed": repr(res)})
+        return out
+
     def extra_checks(self, rng, tier, ev):
+        slow = self.slow_read_sessions()
+        ev["coverage"]["slow_read_sessions"] = 2
+        if slow:
+            return slow
         procs = self._real or ll.real_sessions_start(ll.REAL_HISTORIES)
         self._real = None
         res = ll.real_sessions_collect(procs)
@@ -290,6 +336,9 @@ class C09(Prop):
 
     def replay(self, obj):
         case = obj["case"]
+        if case.startswith("slow-read:"):
+            vs = [v for v in self.slow_read_sessions() if v["case"] == case]
+            return vs[0] if vs else None
         if case.startswith("real-threads:"):
             n = case.split(":", 1)[1]
             hs = [h for h in ll.REAL_HISTORIES if h[0] == n]
